@@ -363,6 +363,63 @@ def run_eval_history_stream(ctx, res, want, n):
             )
 
 
+class _Alike:
+    """a request value that prints like a string key but is not equal to it"""
+
+    def __init__(self, text):
+        self.text = text
+
+    def __repr__(self):
+        return self.text
+
+    __str__ = __repr__
+
+
+def _batch_requests():
+    return [["7"], [7], [_Alike("7")], ["8"], [8], [7.0], [True], ["True"], ["7"]]
+
+
+def run_batch_stream(ctx, res, want):
+    """batch_enforce decides every request of the batch on its own: requests that are different values but print alike
+    (7 / '7' / an object printing 7), repeated requests, every rotation of the batch; the expected decisions are the
+    single-request decisions (tied to the Lean model by the main stream)"""
+    casbin = common.use_repo()
+    reqs0 = _batch_requests()
+    for kind in KINDS:
+        m = casbin.Enforcer.new_model(text=model_text(kind, True, False))
+        e = casbin.Enforcer(m)
+        e.add_function("f", synth_f)
+        for rules in ([["7", "t", "allow"], ["8", "t", "deny"]], [["7", "t", "deny"], ["True", "t", "allow"]], [["8", "t", "allow"]], []):
+            e.model.model["p"]["p"].policy = [list(r) for r in rules]
+            for rot in range(len(reqs0)):
+                reqs = reqs0[rot:] + reqs0[:rot]
+                try:
+                    single = [e.enforce(*r) for r in reqs]
+                    batch = e.batch_enforce([list(r) for r in reqs])
+                except Exception as ex:  # noqa
+                    single, batch = None, f"!{type(ex).__name__}"
+                res.evaluations += 1
+                res.count("stream:batch")
+                if single is not None and any(single):
+                    res.nontrivial.add(hash(("batch", kind, repr(rules), rot)))
+                if batch != single:
+                    res.violation({"signature": f"C01:batch:{kind}", "stream": "batch", "kind": kind, "rules": rules, "rotation": rot,
+                                   "what": f"effect {kind}, policy {rules}: batch_enforce({[repr(r[0]) for r in reqs]}) = {batch}; the requests decided one by one give {single}",
+                                   "expected": single, "observed": batch})
+                    break
+
+
+def replay_batch(obj):
+    casbin = common.use_repo()
+    m = casbin.Enforcer.new_model(text=model_text(obj["kind"], True, False))
+    e = casbin.Enforcer(m)
+    e.add_function("f", synth_f)
+    e.model.model["p"]["p"].policy = [list(r) for r in obj["rules"]]
+    reqs0 = _batch_requests()
+    reqs = reqs0[obj["rotation"] :] + reqs0[: obj["rotation"]]
+    return e.batch_enforce([list(r) for r in reqs]) != [e.enforce(*r) for r in reqs]
+
+
 def run(ctx, res, want):
     """want = 'decision' (C01) or 'explain' (C08): which part of the specification is judged"""
     # a broken proof/tie first gets the quick budget; the deep one only if that finds no failing input
@@ -371,6 +428,8 @@ def run(ctx, res, want):
         _run_stage(ctx, res, want, maxlen, nrand)
         run_context_stream(ctx, res, want, 3 if maxlen <= 6 else 4)
         run_eval_history_stream(ctx, res, want, 400 if maxlen <= 6 else 3000)
+        if want == "decision":
+            run_batch_stream(ctx, res, want)
         if res.spec_violations:
             break
     return res
@@ -441,6 +500,8 @@ def _run_stage(ctx, res, want, maxlen, nrand):
 
 
 def replay(obj, want):
+    if obj.get("stream") == "batch":
+        return replay_batch(obj)
     if obj.get("kind_of_case") == "eval-history":
         c = obj["case"]
         outs = _eval_script_run(c["kind"], [tuple(o) for o in c["script"]])
